@@ -173,8 +173,11 @@ struct ValT {
     o.Check();
     ++g_live_vals;
   }
+  // a move is observable: the source is left with kMovedFrom, which every later read of it reports
+  static constexpr long kMovedFrom = -7777;
   ValT(ValT&& o) noexcept : a{o.a} {
     o.Check();
+    o.a = kMovedFrom;
     ++g_live_vals;
   }
   ValT& operator=(const ValT& o) noexcept {
@@ -186,7 +189,10 @@ struct ValT {
   ValT& operator=(ValT&& o) noexcept {
     Check();
     o.Check();
-    a = o.a;
+    if (this != &o) {
+      a = o.a;
+      o.a = kMovedFrom;
+    }
     return *this;
   }
   ~ValT() {
@@ -530,27 +536,29 @@ struct AllocNamer {
   using CombHelper = typename Comb::Helper;
   using OutHelper = yaclib::detail::Helper<yaclib::detail::OneCounter, yaclib::detail::UniqueCore<OutV, Err>>;
   Obs* obs;
+  std::string tag = "";  // suffix of the names given to the words (scenarios with two combinators: "1", "2")
 
   static void OnAlloc(void* ctx, void* p, std::size_t size) {
     auto* self = static_cast<AllocNamer*>(ctx);
+    const std::string& tag = self->tag;
     if (!self->obs->out_named && size == sizeof(OutHelper)) {
       auto* h = static_cast<OutHelper*>(p);
-      vrt::NameLoc(&h->_callback, "o", FmtWord);
+      vrt::NameLoc(&h->_callback, "o" + tag, FmtWord);
       Watch(p, "output state", -1);
       self->obs->out_named = true;
       return;
     }
     if (self->obs->out_named && !self->obs->comb_named && size == sizeof(CombHelper)) {
       auto* h = static_cast<CombHelper*>(p);
-      vrt::NameLoc(&h->count, "count", FmtDec);
+      vrt::NameLoc(&h->count, "count" + tag, FmtDec);
       if constexpr (requires { h->st._done; }) {
-        vrt::NameLoc(&h->st._done, "d", FmtDec);
+        vrt::NameLoc(&h->st._done, "d" + tag, FmtDec);
       }
       if constexpr (requires { h->st._state; }) {
         if constexpr (sizeof(h->st._state) == 4) {
-          vrt::NameLoc(&h->st._state, "s", FmtDec32);
+          vrt::NameLoc(&h->st._state, "s" + tag, FmtDec32);
         } else {
-          vrt::NameLoc(&h->st._state, "s", FmtDec);
+          vrt::NameLoc(&h->st._state, "s" + tag, FmtDec);
         }
       }
       Watch(p, "combinator", -1);
@@ -841,6 +849,17 @@ void RunImpl(const std::string& pat, const std::vector<int>& order, std::index_s
     AllocNamer<C, OutV, typename C::template Fut<Is>::Core...> namer{&obs};
 
     const bool builder_first = order.size() == 1 && order[0] < 0;
+    // Arrangements p / pp: a second handle of every SharedFuture input survives the combinator, so the combinator must
+    // COPY the value out of the shared state; afterwards the value is read again through that handle (a value that was
+    // moved out instead reads as kMovedFrom).  Arrangements q*: no other handle, the last reference may move.
+    const bool keep = order.empty() || builder_first;
+    auto keepers = std::make_tuple([&] {
+      if constexpr (C::template kShared<Is>) {
+        return keep ? std::get<Is>(contracts).first : typename C::template Fut<Is>{};
+      } else {
+        return 0;
+      }
+    }()...);
     std::vector<yaclib_std::thread> producers;
     auto start_producers = [&] {
       if (order.empty() || builder_first) {
@@ -902,6 +921,20 @@ void RunImpl(const std::string& pat, const std::vector<int>& order, std::index_s
     }
     if (!builder_first) {
       builder.join();
+    }
+    if constexpr (!C::kVoid) {
+      (..., [&] {
+        if constexpr (C::template kShared<Is>) {
+          auto& k = std::get<Is>(keepers);
+          if (k.Valid()) {
+            const long code = CodeR(k.Get());
+            if (code != Expected(pat[Is], Is, false)) {
+              vrt::Fail("shared input " + std::to_string(Is) + " read through a surviving handle after the combinator: " +
+                        std::to_string(code) + " instead of " + std::to_string(Expected(pat[Is], Is, false)));
+            }
+          }
+        }
+      }());
     }
   }
   g_rec = false;
